@@ -20,8 +20,10 @@ class Message:
     def _check_args(self):
         if any(type(arg)(' ') in arg in arg for arg in self.args[:-1] if isinstance(arg, str)):
             raise Error('Space can only appear in the very last arg')
-        if any(type(arg)('\n') in arg for arg in self.args if isinstance(arg, str)):
+        if any(type(arg)('\n') in arg or type(arg)('\r') in arg for arg in self.args if isinstance(arg, str)):
             raise Error('No newline allowed')
+        if any('\n' in part or '\r' in part for part in (str(self.command), self.prefix or '')):
+            raise Error('No newline allowed in command or prefix')
 
     @staticmethod
     def from_string(s):
